@@ -118,23 +118,46 @@ EXPORT errno_t _wcsicmp_s_chk(const wchar_t *restrict dest, rsize_t dmax,
         }
     }
 
-    d1 = (wchar_t *)malloc(2 * destsz);
-    rc = wcsfc_s(d1, dmax * 2, (wchar_t * restrict) dest, &l1);
-    if (rc != EOK) {
-        free(d1);
-        return rc;
+    /* fold bounded, terminated copies: wcsfc_s reads up to a terminator and
+       wants room for one whole expansion (4 + terminator) at every character */
+    l1 = 0;
+    while (l1 < dmax && dest[l1])
+        l1++;
+    l2 = 0;
+    while (l2 < smax && src[l2])
+        l2++;
+    if (unlikely(l1 == dmax || l2 == smax)) {
+        /* no terminator within dmax/smax: there is no room to fold it */
+        invoke_safe_str_constraint_handler("wcsicmp_s: dmax/smax too small",
+                                           (void *)dest, ESNOSPC);
+        return RCNEGATE(ESNOSPC);
     }
-
-    d2 = (wchar_t *)malloc(2 * srcsz);
-    rc = wcsfc_s(d2, smax * 2, (wchar_t * restrict) src, &l2);
-    if (rc != EOK) {
-        free(d1);
-        free(d2);
-        return rc;
+    d1 = (wchar_t *)malloc(((l1 + 1) + (2 * l1 + 5) + (l2 + 1) + (2 * l2 + 5)) *
+                           sizeof(wchar_t));
+    if (unlikely(!d1)) {
+        invoke_safe_str_constraint_handler("wcsicmp_s: out of memory",
+                                           (void *)dest, ENOMEM);
+        return RCNEGATE(ENOMEM);
     }
-
-    rc = _wcscmp_s_chk(d1, dmax * 2, d2, smax * 2, resultp, 2 * destsz,
-                       2 * srcsz);
+    {
+        wchar_t *c1 = d1;                  /* copy of dest */
+        wchar_t *f1 = c1 + l1 + 1;         /* folded dest */
+        wchar_t *c2 = f1 + 2 * l1 + 5;     /* copy of src */
+        wchar_t *f2 = c2 + l2 + 1;         /* folded src */
+        rsize_t n1 = l1, n2 = l2;
+        memcpy(c1, dest, n1 * sizeof(wchar_t));
+        c1[n1] = L'\0';
+        memcpy(c2, src, n2 * sizeof(wchar_t));
+        c2[n2] = L'\0';
+        d2 = NULL;
+        rc = wcsfc_s(f1, 2 * n1 + 5, c1, &l1);
+        if (rc == EOK)
+            rc = wcsfc_s(f2, 2 * n2 + 5, c2, &l2);
+        if (rc == EOK)
+            rc = _wcscmp_s_chk(f1, 2 * n1 + 5, f2, 2 * n2 + 5, resultp,
+                               (2 * n1 + 5) * sizeof(wchar_t),
+                               (2 * n2 + 5) * sizeof(wchar_t));
+    }
     free(d1);
     free(d2);
     return rc;
